@@ -567,7 +567,9 @@ Inductive op :=
 | Abort (t : nat)
 | Reopen
 | Repl (b : batch)
-| Get (t : nat) (i : iid) (vs : list Z).
+| Get (t : nat) (i : iid) (vs : list Z)
+(* tx.Commit whose underlying kv commit returns an error: cleanups run with committed=false *)
+| CommitFail (t : nat).
 
 Inductive out :=
 | OSkip
@@ -648,6 +650,11 @@ Definition step (s : st) (o : op) : st * out :=
       if is_open s t
       then (s, OKeys (match vs with [] => [] | _ => idx_get s t i vs end))
       else (s, OSkip)
+  | CommitFail t =>
+      match t with
+      | O => (s, OSkip)
+      | _ => if is_open s t then (abort t s, ODone 2) else (s, OSkip)
+      end
   end.
 
 Fixpoint run (s : st) (ops : list op) : st :=
